@@ -51,7 +51,7 @@ func (db *Builder) Add(b []byte) error {
 	if db.d.numWords != 0 && bytes.Compare(db.lastWord, b) != -1 {
 		return errors.New("byte slices must be added in lexicographical order")
 	}
-	db.lastWord = b
+	db.lastWord = append(db.lastWord[:0], b...) //The caller may reuse b, so keep a copy.
 	_, suffix, lastNode := db.d.commonPrefix(b)
 	if len(lastNode.links) != 0 {
 		db.register = replaceOrRegister(lastNode, db.register)
